@@ -21,7 +21,7 @@ REQUIRED_TAGS = ['compared']
 LIMITS = {'quick': {'max_paths': 20000, 'max_s': 150}, 'thorough': {'max_paths': 200000, 'max_s': 900}}
 
 HIER = ['param-override', 'bare-value', 'none-override', 'method-command', 'mixin', 'inherit-false', 'struct', 'enum-growth', 'two-level',
-        'method-struct-command', 'property-two-level', 'bare-below-param', 'mixin-merge', 'feature-mixin', 'diamond', 'mixin-after', 'two-plain-mixins', 'branch-removes']
+        'method-struct-command', 'property-two-level', 'bare-below-param', 'mixin-merge', 'feature-mixin', 'diamond', 'mixin-after', 'two-plain-mixins', 'branch-removes', 'shared-datatype-object']
 
 
 def cases(tier):
@@ -202,6 +202,20 @@ def run_isolation(env, p):
             pass
         subs['Sub'] = Sub
         subs['SubSub'] = SubSub
+    elif h == 'shared-datatype-object':
+        UInt = IntRange(0, 255)                    # a datatype object used for several parameters (as frappy's own UInt8 is)
+
+        class U1(Base):
+            pu = Parameter('u', UInt, readonly=False, default=0)
+
+        class U2(Base):
+            pu = Parameter('u', UInt, max=n_enum, readonly=False, default=0)
+
+        class U3(U1):
+            pass
+        subs['U1'] = U1
+        subs['U2'] = U2
+        subs['U3'] = U3
     elif h == 'mixin-after':
         class AfterMixin:                      # a plain mixin listed AFTER the class that owns the parameter
             pf = Parameter(group='aftergroup', visibility=3)
@@ -357,6 +371,11 @@ def run_isolation(env, p):
         _, again = describe(w, ['Base', 'Sub'])
         env.check(again['Sub'].get('features') == ['HasOffset'] and not again['Base'].get('features'), K + '/features-depend-on-creation-order',
                   [again['Sub'].get('features'), again['Base'].get('features')])
+    if h == 'shared-datatype-object':
+        env.check(acc('u10', '_pu')['datainfo'].get('max') == 255, K + '/class-changed-through-a-shared-datatype-object', acc('u10', '_pu')['datainfo'])
+        env.check(acc('u32', '_pu')['datainfo'].get('max') == 255, K + '/class-changed-through-a-shared-datatype-object', acc('u32', '_pu')['datainfo'])
+        env.check(M.eq(acc('u21', '_pu')['datainfo'].get('max'), n_enum), K + '/override-not-applied')
+        env.check(UInt.max == 255, K + '/datatype-object-of-the-programmer-changed', UInt.max)
     if h == 'two-plain-mixins':
         env.check(M.eq(acc('sub0', '_pz')['datainfo'].get('max'), n_enum), K + '/override-not-applied')
         env.check(acc('sub21', '_pz')['datainfo'].get('max') == 10, K + '/class-using-a-mixin-changed-by-a-later-class', acc('sub21', '_pz')['datainfo'])
